@@ -127,7 +127,7 @@ inductive Classified (inStr : Bool) (ty : Int) (text : Bytes) (tok : Option Byte
       included): everything has been consumed, `l.token` is empty -/
   | unterminated (opn body : Bytes) (hopn : opn = if inStr then [] else [34])
       (hbody : StrBody body ∨ ∃ b, body = b ++ [92] ∧ StrBody b)
-      (hty : ty = tokUnterminatedString) (htext : text = opn ++ body) (htok : tok = some []) (hrest : rest = [])
+      (hty : ty = tokUnterminatedString) (htext : text = opn ++ body) (hne : text ≠ []) (htok : tok = some []) (hrest : rest = [])
   /-- inside an interpolated string: `\(` — `l.token` is not assigned -/
   | strQuery (hin : inStr = true) (hty : ty = tokStringQuery) (htext : text = [92, 40]) (htok : tok = none)
   /-- inside an interpolated string: the closing `"` — `l.token` is not assigned -/
@@ -468,7 +468,7 @@ theorem scanStringTok_open_classified (r : Bytes) :
   cases hsc : scanString r 0 with
   | unterminated =>
     rw [hsc] at hs
-    exact .unterminated [34] r rfl hs rfl (by simp) rfl (by simp)
+    exact .unterminated [34] r rfl hs rfl (by simp) (by simp) rfl (by simp)
   | invalidEscape e len =>
     rw [hsc] at hs
     obtain ⟨body, esc, X, h1, h2, h3, h4, h5⟩ := hs
@@ -488,7 +488,7 @@ theorem scanStringTok_open_classified (r : Bytes) :
     exact .plain (by decide) not_special_tokString (by simp) (by simp)
 
 /-- inside an interpolated string literal -/
-theorem scanStringTok_in_classified (r : Bytes) :
+theorem scanStringTok_in_classified (r : Bytes) (hr : r ≠ []) :
     (scanStringTok true none r).n ≤ r.length ∧
     Classified true (scanStringTok true none r).ty (r.take (scanStringTok true none r).n)
       (scanStringTok true none r).token (r.drop (scanStringTok true none r).n) := by
@@ -498,7 +498,7 @@ theorem scanStringTok_in_classified (r : Bytes) :
   cases hsc : scanString r 0 with
   | unterminated =>
     rw [hsc] at hs
-    exact .unterminated [] r rfl hs rfl (by simp) rfl (by simp)
+    exact .unterminated [] r rfl hs rfl (by simp) (by simpa using hr) rfl (by simp)
   | invalidEscape e len =>
     rw [hsc] at hs
     obtain ⟨body, esc, X, h1, h2, h3, h4, h5⟩ := hs
@@ -550,5 +550,413 @@ theorem scanStringTok_in_classified (r : Bytes) :
         | cons _ _ => simp at h2; omega
       subst hb
       exact .strEnd rfl rfl (by simp) rfl
+
+/-! ### tokens outside a string literal -/
+
+/-- `Classified` for a `Scan` of `scanTok`: `ch` is the byte `next()` returned, `r` the source after it -/
+def Cls (ch : UInt8) (r : Bytes) (sc : Scan) : Prop :=
+  Classified false sc.ty (ch :: r.take sc.n) sc.token (r.drop sc.n)
+
+theorem ite_cls {c : Prop} [Decidable c] {a b : Scan} {ch : UInt8} {r : Bytes} (ha : c → Cls ch r a) (hb : ¬c → Cls ch r b) :
+    Cls ch r (if c then a else b) := by
+  split
+  · exact ha ‹_›
+  · exact hb ‹_›
+
+instance (ty : Int) : Decidable (special ty) := by unfold special; infer_instance
+
+theorem cls_single_eq {ch K : UInt8} {r : Bytes} (h : (ch == K) = true) (hK0 : K ≠ 0) (hK : K.toNat < 128) :
+    Cls ch r { n := 0, token := none, ty := ch.toNat } := by
+  simp only [beq_iff_eq] at h; subst h
+  exact .single ch hK0 hK rfl (by simp) rfl
+
+theorem cls_single_else {ch : UInt8} {r : Bytes} (h0 : ¬ (ch == 0) = true) (h : ¬ ch ≥ 128) :
+    Cls ch r { n := 0, token := none, ty := ch.toNat } := by
+  refine .single ch (by simpa using h0) ?_ rfl (by simp) rfl
+  have : ¬ (128 : UInt8) ≤ ch := h
+  rw [UInt8.le_iff_toNat_le] at this
+  simpa using this
+
+theorem cls_plain {ch : UInt8} {r : Bytes} (n : Nat) (ty : Int) (lv : LVal) (h1 : 128 ≤ ty) (h2 : ¬ special ty) :
+    Cls ch r { n := n, token := some (ch :: r.take n), ty := ty, lval := lv } :=
+  .plain h1 h2 (by simp) rfl
+
+def opSpellings : List Bytes :=
+  [[46, 46], [124, 61], [63, 47, 47], [43, 61], [45, 61], [42, 61], [47, 61], [47, 47, 61], [47, 47],
+   [37, 61], [61, 61], [61], [33, 61], [62, 61], [62], [60, 61], [60]]
+
+theorem opEntry_plain : ∀ sp ∈ opSpellings, 128 ≤ (opEntry sp).1 ∧ ¬ special (opEntry sp).1 := by decide +kernel
+
+theorem cls_op {ch : UInt8} {r : Bytes} (sp : Bytes) (hsp : sp ∈ opSpellings) (ht : ch :: r.take (sp.length - 1) = sp) :
+    Cls ch r { n := sp.length - 1, token := some sp, ty := (opEntry sp).1, lval := { operator := (opEntry sp).2 } } := by
+  have := opEntry_plain sp hsp
+  exact .plain this.1 this.2 (by simp only [ht]; intro h; subst h; simp [opSpellings] at hsp) (by simp only [ht])
+
+theorem peek_cons {r : Bytes} {c : UInt8} (h : (peek r == c) = true) (hc : c ≠ 0) : ∃ r', r = c :: r' := by
+  cases r with
+  | nil => simp [peek] at h; exact absurd h.symm hc
+  | cons x r' => simp [peek] at h; exact ⟨r', by rw [h]⟩
+
+theorem op1_text {ch a : UInt8} {r : Bytes} (h1 : (ch == a) = true) : ch :: r.take ([a].length - 1) = [a] := by
+  simp only [beq_iff_eq] at h1; subst h1; simp
+
+theorem op2_text {ch a b : UInt8} {r : Bytes} (h1 : (ch == a) = true) (h2 : (peek r == b) = true) (hb : b ≠ 0) :
+    ch :: r.take ([a, b].length - 1) = [a, b] := by
+  simp only [beq_iff_eq] at h1; subst h1
+  obtain ⟨r', rfl⟩ := peek_cons h2 hb
+  simp
+
+theorem op3_text {ch a b c : UInt8} {r : Bytes} (h1 : (ch == a) = true) (h2 : (peek r == b) = true)
+    (h3 : (peek (r.drop 1) == c) = true) (hb : b ≠ 0) (hc : c ≠ 0) :
+    ch :: r.take ([a, b, c].length - 1) = [a, b, c] := by
+  simp only [beq_iff_eq] at h1; subst h1
+  obtain ⟨r', rfl⟩ := peek_cons h2 hb
+  obtain ⟨r'', h⟩ := peek_cons h3 hc
+  simp only [List.drop_succ_cons, List.drop_zero] at h
+  subst h
+  simp
+
+theorem bytesLookup_mem {α : Type} (k : Bytes) (l : List (Bytes × α)) (v : α) (h : bytesLookup k l = some v) :
+    (k, v) ∈ l := by
+  induction l with
+  | nil => simp [bytesLookup] at h
+  | cons e l ih =>
+    obtain ⟨k', v'⟩ := e
+    simp only [bytesLookup] at h
+    split at h
+    · rename_i hk
+      simp only [beq_iff_eq] at hk
+      simp only [Option.some.injEq] at h
+      subst hk h
+      exact List.mem_cons_self
+    · exact List.mem_cons_of_mem _ (ih h)
+
+theorem keywords_plain : ∀ e ∈ keywords, 128 ≤ e.2 ∧ ¬ special e.2 := by decide +kernel
+
+theorem keyword_ty_plain (t : Bytes) :
+    128 ≤ (bytesLookup t keywords).getD tokIdent ∧ ¬ special ((bytesLookup t keywords).getD tokIdent) := by
+  cases h : bytesLookup t keywords with
+  | none => exact ⟨by decide, by decide⟩
+  | some v => exact keywords_plain _ (bytesLookup_mem t keywords v h)
+
+theorem cls_nonascii {ch : UInt8} {r : Bytes} (n : Nat) (h : ch ≥ 128) :
+    Cls ch r { n := n, token := some (ch :: r.take n), ty := ch.toNat } := by
+  have h1 : (128 : UInt8) ≤ ch := h
+  rw [UInt8.le_iff_toNat_le] at h1
+  have h3 : (128 : UInt8).toNat = 128 := rfl
+  rw [h3] at h1
+  have h2 := ch.toNat_lt
+  refine .plain (by show (128 : Int) ≤ (ch.toNat : Int); omega) ?_ (by simp) rfl
+  simp only [special, eof, tokInvalid, tokInvalidEscapeSequence, tokUnterminatedString, tokStringQuery, tokStringEnd]
+  omega
+
+theorem cls_badNumber_lead {ch : UInt8} {r : Bytes} (hch : isNumber ch = true) (h : ¬ (scanNumber .lead r).2 = true) :
+    Cls ch r { n := (scanNumber .lead r).1, token := some (ch :: r.take (scanNumber .lead r).1), ty := tokInvalid } := by
+  have := scanNumber_lead_bad r (scanNumber .lead r).1 (by
+    rcases hs : scanNumber .lead r with ⟨m, ok⟩
+    rw [hs] at h; simp at h; simp [h])
+  exact .badNumber rfl (Or.inl ⟨ch, _, hch, rfl, this⟩) rfl
+
+theorem cls_badNumber_float {ch : UInt8} {r : Bytes} (hch : (ch == 46) = true) (hp : isNumber (peek r) = true)
+    (h : ¬ (scanNumber .float r).2 = true) :
+    Cls ch r { n := (scanNumber .float r).1, token := some (ch :: r.take (scanNumber .float r).1), ty := tokInvalid } := by
+  simp only [beq_iff_eq] at hch; subst hch
+  have hbad := scanNumber_float_bad r (scanNumber .float r).1 (by
+    rcases hs : scanNumber .float r with ⟨m, ok⟩
+    rw [hs] at h; simp at h; simp [h])
+  cases r with
+  | nil => simp [peek, isNumber] at hp
+  | cons c r' =>
+    simp only [peek, List.headD_cons] at hp
+    have hn : ∃ m, (scanNumber .float (c :: r')).1 = m + 1 := by
+      rw [scanNumber]
+      simp only [show (NumState.float == NumState.lead) = false from rfl, show (NumState.float == NumState.float) = true from rfl,
+        Bool.or_true, if_true, hp]
+      exact ⟨_, rfl⟩
+    obtain ⟨m, hm⟩ := hn
+    refine .badNumber rfl (Or.inr ⟨c, r'.take m, hp, by simp [hm], ?_⟩) rfl
+    simpa [hm] using hbad
+
+theorem scanTok_classified (ch : UInt8) (r : Bytes) : Cls ch r (scanTok false ch r) := by
+  have hs := (scanStringTok_open_classified r).2
+  simp only [scanTok]
+  repeat' (apply ite_cls <;> intro _)
+  all_goals first
+    | exact cls_single_eq ‹(ch == _) = true› (by decide) (by decide)
+    | exact cls_single_else ‹_› ‹_›
+    | exact cls_op _ (by decide) (op1_text ‹(ch == _) = true›)
+    | exact cls_op _ (by decide) (op2_text ‹(ch == _) = true› ‹(peek r == _) = true› (by decide))
+    | exact cls_op _ (by decide) (op3_text ‹(ch == _) = true› ‹(peek r == _) = true› ‹(peek (List.drop 1 r) == _) = true› (by decide) (by decide))
+    | (rename_i hh; simp only [Bool.and_eq_true] at hh
+       exact cls_op _ (by decide) (op3_text ‹(ch == _) = true› hh.1 hh.2 (by decide) (by decide)))
+    | exact cls_plain _ _ _ (by decide) (by decide)
+    | exact cls_nonascii _ ‹_›
+    | exact cls_badNumber_lead ‹_› ‹_›
+    | exact cls_badNumber_float ‹_› ‹_› ‹_›
+    | exact cls_plain _ _ _ (by split <;> first | decide | exact (keyword_ty_plain _).1)
+        (by split <;> first | decide | exact (keyword_ty_plain _).2)
+    | (have hq : ch = 34 := by simpa using ‹(ch == 34) = true›
+       subst hq; exact hs)
+    | (have hq : ch = 0 := by simpa using ‹(ch == 0) = true›
+       subst hq; exact .nul rfl (by simp) rfl)
+
+/-! ### the gap before a token: `next()` / `skipComment()` -/
+
+theorem GapEnd.white {c : UInt8} {g : Bytes} (hc : isWhite c = true) (h : GapEnd g) : GapEnd (c :: g) := by
+  rcases h with h | ⟨g1, b, h1, h2, h3⟩
+  · exact Or.inl (.white c g hc h)
+  · exact Or.inr ⟨c :: g1, b, by simp [h1], .white c g1 hc h2, h3⟩
+
+theorem GapEnd.comment {b : Bytes} {t : UInt8} {g : Bytes} (hb : CBody b) (ht : t = 10 ∨ t = 13) (h : GapEnd g) :
+    GapEnd (35 :: b ++ t :: g) := by
+  rcases h with h | ⟨g1, b2, h1, h2, h3⟩
+  · exact Or.inl (.comment b t g hb ht h)
+  · exact Or.inr ⟨35 :: b ++ t :: g1, b2, by simp [h1], .comment b t g1 hb ht h2, h3⟩
+
+/-- the part of the current comment's body that the mode remembers -/
+def modePfx : Mode → Bytes
+  | .normal => []
+  | .comment => []
+  | .afterBs => [92]
+  | .afterBsCR => [92, 13]
+
+/-- inside a comment whose body so far is `pfx`: the rest of the body, its terminator, a gap -/
+def GapC (pfx g : Bytes) : Prop := ∃ b t g', g = b ++ t :: g' ∧ CBody (pfx ++ b) ∧ (t = 10 ∨ t = 13) ∧ Gap g'
+
+def GapEndC (pfx g : Bytes) : Prop :=
+  (∃ b t g', g = b ++ t :: g' ∧ CBody (pfx ++ b) ∧ (t = 10 ∨ t = 13) ∧ GapEnd g') ∨ CBody (pfx ++ g)
+
+def GapM : Mode → Bytes → Prop
+  | .normal, g => Gap g
+  | m, g => GapC (modePfx m) g
+
+def GapEndM : Mode → Bytes → Prop
+  | .normal, g => GapEnd g
+  | m, g => GapEndC (modePfx m) g
+
+/-- what `nextAux m r n` promises -/
+def Next.Spec (m : Mode) (r : Bytes) (n : Nat) : Next → Prop
+  | .char c w => ∃ g X, r = g ++ c :: X ∧ w = n + g.length + 1 ∧ isWhite c = false ∧ c ≠ 35 ∧ GapM m g
+  | .eof k => k = n + r.length ∧ GapEndM m r
+  | .panic => True
+
+theorem cbody_modePfx (m : Mode) : CBody (modePfx m) := by
+  cases m
+  · exact .nil
+  · exact .nil
+  · exact .bsend
+  · exact .bscr [] .nil
+
+/-- one more byte of the comment body -/
+theorem Next.Spec.step_body {m m' : Mode} (hm : m ≠ .normal) (hm' : m' ≠ .normal) (c : UInt8) (r : Bytes) (n : Nat)
+    (res : Next) (hp : ∀ b, CBody (modePfx m' ++ b) → CBody (modePfx m ++ c :: b))
+    (h : res.Spec m' r (n + 1)) : res.Spec m (c :: r) n := by
+  have e1 : ∀ g, GapM m g = GapC (modePfx m) g := by intro g; cases m <;> first | exact absurd rfl hm | rfl
+  have e2 : ∀ g, GapM m' g = GapC (modePfx m') g := by intro g; cases m' <;> first | exact absurd rfl hm' | rfl
+  have e3 : ∀ g, GapEndM m g = GapEndC (modePfx m) g := by intro g; cases m <;> first | exact absurd rfl hm | rfl
+  have e4 : ∀ g, GapEndM m' g = GapEndC (modePfx m') g := by intro g; cases m' <;> first | exact absurd rfl hm' | rfl
+  cases res with
+  | char x w =>
+    obtain ⟨g, X, h1, h2, h3, h4, h5⟩ := h
+    rw [e2] at h5
+    obtain ⟨b, t, g', h6, h7, h8, h9⟩ := h5
+    refine ⟨c :: g, X, by simp [h1], by simp [h2]; omega, h3, h4, ?_⟩
+    rw [e1]
+    exact ⟨c :: b, t, g', by simp [h6], hp b h7, h8, h9⟩
+  | eof k =>
+    obtain ⟨h1, h2⟩ := h
+    refine ⟨by simp [h1]; omega, ?_⟩
+    rw [e4] at h2; rw [e3]
+    rcases h2 with ⟨b, t, g', h6, h7, h8, h9⟩ | h2
+    · exact Or.inl ⟨c :: b, t, g', by simp [h6], hp b h7, h8, h9⟩
+    · exact Or.inr (hp r h2)
+  | panic => trivial
+
+/-- the byte `t` (LF or CR) ends the comment; scanning goes on in normal mode -/
+theorem Next.Spec.step_term {m : Mode} (hm : m ≠ .normal) (t : UInt8) (ht : t = 10 ∨ t = 13) (r : Bytes) (n : Nat)
+    (res : Next) (h : res.Spec .normal r (n + 1)) : res.Spec m (t :: r) n := by
+  have e1 : ∀ g, GapM m g = GapC (modePfx m) g := by intro g; cases m <;> first | exact absurd rfl hm | rfl
+  have e3 : ∀ g, GapEndM m g = GapEndC (modePfx m) g := by intro g; cases m <;> first | exact absurd rfl hm | rfl
+  cases res with
+  | char x w =>
+    obtain ⟨g, X, h1, h2, h3, h4, h5⟩ := h
+    refine ⟨t :: g, X, by simp [h1], by simp [h2]; omega, h3, h4, ?_⟩
+    rw [e1]
+    exact ⟨[], t, g, rfl, by simpa using cbody_modePfx m, ht, h5⟩
+  | eof k =>
+    obtain ⟨h1, h2⟩ := h
+    refine ⟨by simp [h1]; omega, ?_⟩
+    rw [e3]
+    exact Or.inl ⟨[], t, r, rfl, by simpa using cbody_modePfx m, ht, h2⟩
+  | panic => trivial
+
+theorem nextAux_spec (m : Mode) (r : Bytes) (n : Nat) : (nextAux m r n).Spec m r n := by
+  fun_induction nextAux m r n
+  · trivial
+  · rename_i m n hm
+    refine ⟨by simp, ?_⟩
+    cases m
+    · exact absurd rfl hm
+    all_goals exact Or.inr (by simpa using cbody_modePfx _)
+  · -- normal, `#`
+    rename_i mode c r n hmode hc ih
+    have hm : mode = .normal := by simpa using hmode
+    have hc' : c = 35 := by simpa using hc
+    subst hm hc'
+    cases hres : nextAux .comment r (n + 1) with
+    | char x w =>
+      rw [hres] at ih
+      obtain ⟨g, X, h1, h2, h3, h4, b, t, g', h6, h7, h8, h9⟩ := ih
+      exact ⟨35 :: g, X, by simp [h1], by simp [h2]; omega, h3, h4, by
+        show Gap (35 :: g); rw [h6]; exact .comment b t g' (by simpa [modePfx] using h7) h8 h9⟩
+    | eof k =>
+      rw [hres] at ih
+      obtain ⟨h1, h2⟩ := ih
+      refine ⟨by simp [h1]; omega, ?_⟩
+      rcases h2 with ⟨b, t, g', h6, h7, h8, h9⟩ | h2
+      · show GapEnd (35 :: r); rw [h6]; exact GapEnd.comment (by simpa [modePfx] using h7) h8 h9
+      · exact Or.inr ⟨[], r, rfl, .nil, by simpa [modePfx] using h2⟩
+    | panic => trivial
+  · -- normal, token byte
+    rename_i mode c r n hmode hc hw
+    have hm : mode = .normal := by simpa using hmode
+    subst hm
+    exact ⟨[], r, rfl, by simp, by simpa using hw, by simpa using hc, .nil⟩
+  · -- normal, last white byte
+    rename_i mode c r n hmode hc hw hr
+    have hm : mode = .normal := by simpa using hmode
+    subst hm
+    have hr' : r = [] := by simpa using hr
+    subst hr'
+    exact ⟨by simp, Or.inl (.white c [] (by simpa using hw) .nil)⟩
+  · -- normal, white byte
+    rename_i mode c r n hmode hc hw hr ih
+    have hm : mode = .normal := by simpa using hmode
+    subst hm
+    have hw' : isWhite c = true := by simpa using hw
+    cases hres : nextAux .normal r (n + 1) with
+    | char x w =>
+      rw [hres] at ih
+      obtain ⟨g, X, h1, h2, h3, h4, h5⟩ := ih
+      exact ⟨c :: g, X, by simp [h1], by simp [h2]; omega, h3, h4, .white c g hw' h5⟩
+    | eof k =>
+      rw [hres] at ih
+      obtain ⟨h1, h2⟩ := ih
+      exact ⟨by simp [h1]; omega, GapEnd.white hw' h2⟩
+    | panic => trivial
+  · -- `\\`, `\LF`, `\CR LF`
+    rename_i mode c r n hmode hcond ih
+    have hm : mode ≠ .normal := by intro h; subst h; simp at hmode
+    refine Next.Spec.step_body hm (by decide) c r n _ ?_ ih
+    intro b hb
+    simp only [modePfx, List.nil_append] at hb
+    cases mode <;> simp at hcond
+    · rcases hcond with rfl | rfl
+      · exact .bsbs b hb
+      · exact .bslf b hb
+    · subst hcond; exact .bscrlf b hb
+  · -- `\CR`
+    rename_i mode c r n hmode hcond hcond2 ih
+    have hm : mode ≠ .normal := by intro h; subst h; simp at hmode
+    refine Next.Spec.step_body hm (by decide) c r n _ ?_ ih
+    intro b hb
+    cases mode <;> simp at hcond2
+    subst hcond2
+    exact hb
+  · -- a backslash
+    rename_i mode c r n hmode hcond hcond2 hc ih
+    have hm : mode ≠ .normal := by intro h; subst h; simp at hmode
+    have hc' : c = 92 := by simpa using hc
+    subst hc'
+    refine Next.Spec.step_body hm (by decide) 92 r n _ ?_ ih
+    intro b hb
+    cases mode <;> simp at hcond
+    · exact absurd rfl hm
+    · exact hb
+    · exact .bscr (92 :: b) hb
+  · -- terminator, last byte
+    rename_i mode c r n hmode hcond hcond2 hc ht hr
+    have hm : mode ≠ .normal := by intro h; subst h; simp at hmode
+    have hr' : r = [] := by simpa using hr
+    subst hr'
+    have ht' : c = 10 ∨ c = 13 := by simpa using ht
+    refine ⟨by simp, ?_⟩
+    have : GapEndM mode [c] = GapEndC (modePfx mode) [c] := by cases mode <;> first | exact absurd rfl hm | rfl
+    rw [this]
+    exact Or.inl ⟨[], c, [], rfl, by simpa using cbody_modePfx mode, ht', Or.inl .nil⟩
+  · -- terminator
+    rename_i mode c r n hmode hcond hcond2 hc ht hr ih
+    have hm : mode ≠ .normal := by intro h; subst h; simp at hmode
+    exact Next.Spec.step_term hm c (by simpa using ht) r n _ ih
+  · -- ordinary comment byte
+    rename_i mode c r n hmode hcond hcond2 hc ht ih
+    have hm : mode ≠ .normal := by intro h; subst h; simp at hmode
+    have h92 : c ≠ 92 := by simpa using hc
+    have h10 : c ≠ 10 ∧ c ≠ 13 := by simpa using ht
+    refine Next.Spec.step_body hm (by decide) c r n _ ?_ ih
+    intro b hb
+    simp only [modePfx, List.nil_append] at hb
+    cases mode
+    · exact absurd rfl hm
+    · exact .plain c b h92 h10.1 h10.2 hb
+    · exact .bsplain c b h92 h10.1 h10.2 hb
+    · exact .bscr (c :: b) (.plain c b h92 h10.1 h10.2 hb)
+
+/-! ### one call of `Lex` -/
+
+/-- ONE CALL OF `Lex` from state `s`: the unread source is `gap ++ text ++ unread'`; `l.offset`
+    advances over gap and text; the gap is white space and comments (empty inside an interpolated
+    string); either the end of the source was reached (token type `eof`, `l.token = ""`), or the
+    token is `Classified` and — outside a string — its first byte is neither white space nor `#`
+    (the gap is maximal). -/
+def LexStep (s : LState) (gap text : Bytes) : Prop :=
+  s.rest = gap ++ text ++ (lex s).2.2.rest ∧
+  (lex s).2.2.offset = s.offset + gap.length + text.length ∧
+  (lex s).2.2.tokenType = (lex s).1 ∧ (s.inString = true → gap = []) ∧
+  (((lex s).1 = eof ∧ text = [] ∧ (lex s).2.2.rest = [] ∧ (lex s).2.2.token = [] ∧ GapEnd gap) ∨
+   (∃ tok, Classified s.inString (lex s).1 text tok (lex s).2.2.rest ∧ (lex s).2.2.token = tok.getD s.token ∧
+      Gap gap ∧ (s.inString = false → ∃ c t, text = c :: t ∧ isWhite c = false ∧ c ≠ 35)))
+
+theorem lex_step (s : LState) : ∃ gap text, LexStep s gap text := by
+  unfold LexStep lex
+  split
+  · rename_i he
+    have he' : s.rest = [] := by simpa using he
+    exact ⟨[], [], by simp [commit, he'], by simp [commit], by simp [commit], fun _ => rfl,
+      Or.inl ⟨by simp [commit], rfl, by simp [commit, he'], by simp [commit], Or.inl .nil⟩⟩
+  · split
+    · rename_i hne hin
+      obtain ⟨hle, hcl⟩ := scanStringTok_in_classified s.rest (by intro h; simp [h] at hne)
+      refine ⟨[], s.rest.take (scanStringTok true none s.rest).n, by simp [commit], ?_, by simp [commit], fun _ => rfl,
+        Or.inr ⟨_, by simpa [commit, hin] using hcl, by simp [commit], .nil, by simp [hin]⟩⟩
+      simp [commit, List.length_take]; omega
+    · rename_i hne hin
+      have hne' : s.rest ≠ [] := by intro h; simp [h] at hne
+      have hb := next_bounds s.rest hne'
+      have hsp := nextAux_spec .normal s.rest 0
+      have hin' : s.inString = false := by simpa using hin
+      split
+      · rename_i heq; rw [heq] at hb; exact hb.elim
+      · rename_i n heq
+        simp only [next] at heq; rw [heq] at hsp
+        obtain ⟨h1, h2⟩ := hsp
+        simp only [Nat.zero_add] at h1
+        subst h1
+        exact ⟨s.rest, [], by simp [commit], by simp [commit], by simp [commit], fun h => by simp [hin'] at h,
+          Or.inl ⟨by simp [commit], rfl, by simp [commit], by simp [commit], h2⟩⟩
+      · rename_i ch w heq
+        simp only [next] at heq; rw [heq] at hsp
+        obtain ⟨g, X, h1, h2, h3, h4, h5⟩ := hsp
+        simp only [Nat.zero_add] at h2
+        have hX : s.rest.drop w = X := by rw [h1, h2]; simp
+        rw [hX, hin']
+        have hcl : Classified false _ _ _ _ := scanTok_classified ch X
+        have hle := scanTok_le false ch X
+        have hrest : List.drop (w + (scanTok false ch X).n) s.rest = X.drop (scanTok false ch X).n := by
+          rw [← List.drop_drop, hX]
+        refine ⟨g, ch :: X.take (scanTok false ch X).n, ?_, ?_, by simp [commit], fun h => by simp at h,
+          Or.inr ⟨_, by simpa [commit, hrest] using hcl, by simp [commit], h5, fun _ => ⟨ch, _, rfl, h3, h4⟩⟩⟩
+        · simp only [commit, hrest]; rw [h1]; simp
+        · simp only [commit, List.length_cons, List.length_take]; omega
 
 end Gojq.Lexer
